@@ -227,7 +227,22 @@ def candidates(sc):
         c = copy.deepcopy(sc)
         c["perm_seed"] = 0
         yield c
-    for k in ("threads_plan",):
+    for si, sd in enumerate(sc.get("senders", [])):
+        if len(sc["senders"]) > 2:
+            c = copy.deepcopy(sc)
+            del c["senders"][si]
+            yield c
+        for j in range(len(sd["sends"]) - 1, -1, -1):
+            if len(sd["sends"]) > 1:
+                c = copy.deepcopy(sc)
+                del c["senders"][si]["sends"][j]
+                yield c
+            for key in ("think", "early"):
+                if sd["sends"][j].get(key):
+                    c = copy.deepcopy(sc)
+                    del c["senders"][si]["sends"][j][key]
+                    yield c
+    for k in ("tplan",):
         if sc.get(k):
             plan = sc[k]
             for i in range(len(plan) - 1, -1, -1):
